@@ -316,7 +316,7 @@ theorem flatten_unmangle_eq (cfg : FlattenCfg) (fuelF : Nat) (h : Hdr) (t : Ty) 
 
 /-- populating every field from its group of leaf values -/
 theorem pop_groups (fuelF : Nat) : ∀ (fs1 : List FT) (vals : List Val),
-    (∀ f ∈ fs1, tySize f.2 < fuelF ∧ structsBehindPtr f.2 = true) →
+    (∀ f ∈ fs1, tySize f.2 < fuelF) →
     vals.length = (fs1.map fun f => leafN f.2).sum →
     ∃ w1, mapM' (fun (p : FT × List Val) => popUn fuelF p.1.1 p.1.2 p.2)
           (fs1.zip (splitCounts (fs1.map fun f => leafN f.2) vals)) = .ok w1 ∧
@@ -331,8 +331,8 @@ theorem pop_groups (fuelF : Nat) : ∀ (fs1 : List FT) (vals : List Val),
     have hl1 : (vals.take (leafN f.2)).length = leafN f.2 := by rw [List.length_take]; omega
     have hl2 : (vals.drop (leafN f.2)).length = (fs.map fun f => leafN f.2).sum := by
       rw [List.length_drop]; omega
-    obtain ⟨hsz, hbp⟩ := hd f (by simp)
-    obtain ⟨v, hp, hfl, _⟩ := populate_spec fuelF f.2 hsz (vals.take (leafN f.2)) [] hl1 (Or.inl hbp)
+    have hsz := hd f (by simp)
+    obtain ⟨v, hp, hfl, _⟩ := populate_spec fuelF f.2 hsz (vals.take (leafN f.2)) [] hl1
     rw [List.append_nil] at hp
     obtain ⟨w, hw, hfw, hgw⟩ := pop_groups fuelF fs (vals.drop (leafN f.2))
       (fun g hg => hd g (by simp [hg])) hl2
@@ -347,11 +347,11 @@ theorem pop_groups (fuelF : Nat) : ∀ (fs1 : List FT) (vals : List Val),
 /-- what a value `populate` built reads back as: its leaves are the filling, and it is unset exactly
 when all of them are -/
 theorem flattenGood_spec {fuelF : Nat} {f : FT} {v : Val} (hsz : tySize f.2 < fuelF)
-    (hbp : structsBehindPtr f.2 = true) (hg : flattenGood fuelF f v) :
+    (hg : flattenGood fuelF f v) :
     (flatLeaves fuelF f.2 v).length = leafN f.2 ∧
       ((∀ x ∈ flatLeaves fuelF f.2 v, x = Val.nilv) ↔ v = .nilv) := by
   obtain ⟨vals, a, hl, hp⟩ := hg
-  obtain ⟨v', hp', hfl, hv⟩ := populate_spec fuelF f.2 hsz vals [] hl (Or.inl hbp)
+  obtain ⟨v', hp', hfl, hv⟩ := populate_spec fuelF f.2 hsz vals [] hl
   rw [List.append_nil, hp] at hp'
   cases hp'
   rw [hfl]
@@ -387,7 +387,7 @@ theorem mangleLayer_flatten (cfg : FlattenCfg) (fuelF fuel : Nat) (fs1 fs2 : Lis
 values -/
 theorem unmangleLayer_flatten (cfg : FlattenCfg) (fuelF fuel : Nat) (fs1 fs2 : List FT) (vals : List Val)
     (hm : mangleLayer fuel (flattenMangler cfg fuelF) fs1 = .ok fs2)
-    (hd : ∀ f ∈ fs1, tySize f.2 < fuelF ∧ structsBehindPtr f.2 = true)
+    (hd : ∀ f ∈ fs1, tySize f.2 < fuelF)
     (hl : vals.length = fs2.length) :
     ∃ w1, unmangleLayer fuel (flattenMangler cfg fuelF) fs1 vals = .ok w1 ∧
       ((fs1.zip w1).map fun p => flatLeaves fuelF p.1.2 p.2).flatten = vals ∧
@@ -522,7 +522,11 @@ def notAliased (tags : List String) : Hdr → Bool := fun h => !isAliased tags h
 def leafTyOK : Ty → Bool := fun t => (structish t).isNone
 
 /-- the condition on a config field's TYPE: below it (through pointers and struct fields) no field
-carries an alias tag, no leaf is a slice / array of structs, and every struct sits behind a pointer -/
+carries an alias tag, no leaf is a slice / array of structs, and every struct sits behind a pointer.
+(The last ingredient is no longer needed by the flatten layer — since the repair of P02 `populate`
+restores structs held by value, `pop_groups` / `unmangleLayer_flatten` — but by the alias layer on top of
+it: `populate` leaves an unset by-value struct as `nilv`, which the recursing alias mangler's
+`recurseVal` rejects at a struct type — the `nilv` artefact, `Total.envValue_panics_value_struct_sibling`.) -/
 def EnvTy (tags : List String) (t : Ty) : Prop :=
   tyOK (notAliased tags) leafTyOK t t = true ∧ structsBehindPtr t = true
 
@@ -674,9 +678,7 @@ theorem populate_hered (tags : List String) : ∀ (fuel : Nat) (t : Ty), tySize 
         subst hres
         cases any with
         | true =>
-          simp only [if_true, ptrDepth] at hp
-          have : ((0 + 1 : Nat) == 0) = false := rfl
-          simp only [this, Bool.false_eq_true, if_false, Outcome.ok.injEq, Prod.mk.injEq] at hp
+          simp only [if_true, ptrDepth, Outcome.ok.injEq, Prod.mk.injEq] at hp
           obtain ⟨rfl, _, _⟩ := hp
           simp only [wrapPtrs, Hered_ptr_struct]
           exact All2_HeredFs _ ifs fvs hall
@@ -971,18 +973,18 @@ theorem EnvLayers.of_translate
 /-- what the type hypotheses give for the intermediate field lists -/
 theorem EnvLayers.facts (L : EnvLayers tags cfg fuelF fuel tag dec enc src new parse fs fs1 fs2 fs3 fs4 tfs)
     (hty : ∀ f ∈ fs, EnvTy tags f.2) (hsz : ∀ f ∈ fs, tySize f.2 < fuelF) :
-    (∀ o ∈ fs1, (tySize o.2 < fuelF ∧ structsBehindPtr o.2 = true) ∧ EnvTy tags o.2) ∧
+    (∀ o ∈ fs1, tySize o.2 < fuelF ∧ EnvTy tags o.2) ∧
     (∀ o ∈ fs2, structish o.2 = none) ∧
     fs3 = fs2.map (soleOut (tagReformatMangler tag dec enc)) ∧
     fs4 = fs3.map (soleOut (tagCopyMangler src new)) ∧
     tfs = fs4.map (fun f => (f.1, strPtrTy)) ∧
     (∀ o ∈ fs3, structish o.2 = none) ∧
     fs4.map (·.2) = fs2.map (·.2) := by
-  have hf1 : ∀ o ∈ fs1, (tySize o.2 < fuelF ∧ structsBehindPtr o.2 = true) ∧ EnvTy tags o.2 := by
+  have hf1 : ∀ o ∈ fs1, tySize o.2 < fuelF ∧ EnvTy tags o.2 := by
     intro o ho
     obtain ⟨f, hf, e⟩ := (mangleLayer_alias_top tags fuel fs fs1 L.h1 hty).2 o ho
     rw [e]
-    exact ⟨⟨hsz f hf, (hty f hf).2⟩, hty f hf⟩
+    exact ⟨hsz f hf, hty f hf⟩
   have hleaf2 : ∀ o ∈ fs2, structish o.2 = none := by
     intro o ho
     have := mangleLayer_flatten_leafTy cfg (notAliased tags) leafTyOK fuelF fuel fs1 fs2 L.h2
@@ -1054,7 +1056,7 @@ theorem reverse_envChain (L : EnvLayers tags cfg fuelF fuel tag dec enc src new 
   intro o w hmem
   obtain ⟨vals, a, _, hp⟩ := All2.mem hg o w hmem
   have ho := hf1 o (List.of_mem_zip hmem).1
-  exact populate_hered tags fuelF o.2 ho.1.1 ho.2 vals w [] a hp
+  exact populate_hered tags fuelF o.2 ho.1 ho.2 vals w [] a hp
 
 end Chain
 
